@@ -5,8 +5,10 @@ package main
 // checked are armed.
 
 import (
+	"encoding/json"
 	"fmt"
 	"sort"
+	"strings"
 
 	"tkestack.io/galaxy/verifsim/simkube"
 )
@@ -52,6 +54,28 @@ func (w *World) oracleOnBind(p *PodInfo, m *simkube.Mutation) {
 			}
 		}
 	}
+	if w.armed("C02") && p.App != nil && len(p.App.Ranges) == 0 {
+		// (c) the IPs written into the binding are exactly the IPs the store holds for the identity
+		var held []string
+		for _, ip := range w.storeIPsOfKey(p.Key) {
+			if w.inNewestConf(ip) {
+				held = append(held, ip)
+			}
+		}
+		ann := append([]string(nil), p.IPs...)
+		sort.Strings(ann)
+		var annConf []string
+		for _, ip := range ann {
+			if w.inNewestConf(ip) {
+				annConf = append(annConf, ip)
+			}
+		}
+		if strings.Join(annConf, ",") != strings.Join(held, ",") {
+			w.fail("C02.annotation-differs-from-store", "annotation-differs-from-store",
+				"pod %s bound with IPs %v but the store holds %v for identity %q", p.key(), ann, held, p.Key)
+			return
+		}
+	}
 	if w.armed("C10") && w.withCloud {
 		for _, ip := range p.IPs {
 			if w.cloud[ip] != p.Node {
@@ -66,9 +90,6 @@ func (w *World) oracleOnBind(p *PodInfo, m *simkube.Mutation) {
 // ---- FloatingIP store mutations -------------------------------------------------------------------------
 
 func (w *World) oracleOnFip(m *simkube.Mutation) {
-	if worldMutation(m) {
-		return
-	}
 	var ip string
 	if m.Old != nil {
 		ip = m.Old.Name
@@ -76,6 +97,40 @@ func (w *World) oracleOnFip(m *simkube.Mutation) {
 		ip = m.New.Name
 	}
 	oldF, newF := decodeFip(m.Old), decodeFip(m.New)
+	prev := w.M.allocs[ip]
+	// model bookkeeping (always): allocation epochs
+	switch {
+	case newF == nil:
+		delete(w.M.allocs, ip)
+	case oldF == nil || oldF.Key != newF.Key:
+		al := w.newAlloc(ip, newF.Key, m.By, newF.Reserved)
+		w.noteAllocUID(al, newF.UID)
+		if prev != nil && prev.BindTime {
+			al.BindTime = true // the IP entered the pool through a bind-time allocation; re-keying does not change that
+		}
+		if m.By != nil {
+			if tm, ok := m.By.Data.(*taskMeta); ok && tm != nil && tm.podUID != "" {
+				if fw := w.M.filterWin[tm.podUID]; fw != nil && fw.closed {
+					al.BindTime = true
+				}
+			}
+		}
+	default:
+		if prev != nil && prev.UID != newF.UID {
+			w.noteAllocUID(prev, newF.UID)
+		}
+	}
+	w.trackFilterWindows()
+	if newF != nil {
+		w.trackHeld()
+	}
+	if worldMutation(m) {
+		return
+	}
+	w.oracleC03(m, ip, oldF, newF, prev)
+	w.oracleC02Create(m, ip, oldF, newF)
+	w.oracleC07(m, ip, oldF, newF)
+	w.oracleC09Store(m, ip, oldF, newF)
 	if w.armed("C04") {
 		for _, p := range w.livePodsWithIP(ip) {
 			if !w.inNewestConf(ip) {
@@ -158,11 +213,186 @@ func (w *World) oracleOnCloudUnassign(node, ip string) {
 
 // ---- hooks used by other properties (filled in by their files) -----------------------------------------
 
-func (w *World) oracleOnFiltered(fr *filterReport)    {}
-func (w *World) oracleOnPodCreated(p *PodInfo)        {}
-func (w *World) oracleOnPodEnds(p *PodInfo, why string) {}
-func (w *World) oracleOnAppDeleted(a *App)            {}
-func (w *World) oracleOnAdminRelease(f *FipInfo)      {}
+func (w *World) oracleOnFiltered(fr *filterReport) {
+	if fw := w.M.filterWin[fr.UID]; fw != nil {
+		fw.closed = true
+	}
+}
+
+func (w *World) oracleOnPodCreated(p *PodInfo) { w.modelPodCreated(p) }
+
+func (w *World) oracleOnPodEnds(p *PodInfo, why string) { w.modelPodEnds(p) }
+
+func (w *World) oracleOnAppDeleted(a *App) { w.modelAppChanged(a) }
+
+func (w *World) oracleOnAdminRelease(f *FipInfo) { w.M.adminRel[f.IP+"|"+f.Key] = true }
+
+// ---- C03: no premature release ---------------------------------------------------------------------------
+
+func (w *World) oracleC03(m *simkube.Mutation, ip string, oldF, newF *FipInfo, prev *Alloc) {
+	if !w.armed("C03") || prev == nil || oldF == nil {
+		return
+	}
+	if newF == nil {
+		if ok, why := w.releaseJustified(prev, m.By); !ok {
+			w.fail("C03.premature-release", "premature-release:"+policyTag(w, prev.Key),
+				"FloatingIP %s (key %q, allocated at step %d) released by %s: %s", ip, prev.Key, prev.Step, m.By.Name, why)
+		}
+		return
+	}
+	if oldF.Key != newF.Key && isPodKey(oldF.Key) && w.inNewestConf(ip) {
+		// re-keyed away from a pod identity: to the app/pool prefix it is a reservation and needs the pod to be gone;
+		// to another pod it is never allowed
+		id := w.M.idents[oldF.Key]
+		if id == nil {
+			return
+		}
+		if isPodKey(newF.Key) {
+			w.fail("C03.rekeyed-between-pods", "rekeyed-between-pods", "FloatingIP %s moved from pod key %q to pod key %q by %s", ip, oldF.Key, newF.Key, m.By.Name)
+			return
+		}
+		if !prev.PodGoneSince && !w.M.adminRel[ip+"|"+oldF.Key] {
+			w.fail("C03.reserved-while-pod-lives", "reserved-while-pod-lives",
+				"FloatingIP %s taken from pod key %q (pod neither deleted nor finished since step %d) to %q by %s", ip, oldF.Key, prev.Step, newF.Key, m.By.Name)
+		}
+	}
+}
+
+func policyTag(w *World, key string) string {
+	if id := w.M.idents[key]; id != nil {
+		return id.App.Kind + "/" + id.App.effPolicy()
+	}
+	return "prefix"
+}
+
+// ---- C02: stickiness --------------------------------------------------------------------------------------
+
+func (w *World) oracleC02Create(m *simkube.Mutation, ip string, oldF, newF *FipInfo) {
+	if !w.armed("C02") || newF == nil || !isPodKey(newF.Key) {
+		return
+	}
+	gotKey := oldF == nil || oldF.Key != newF.Key
+	if !gotKey {
+		return
+	}
+	id := w.M.idents[newF.Key]
+	if id == nil || len(id.App.Ranges) > 0 {
+		return
+	}
+	// (a) an identity that already holds a (still configured) IP is never given another one
+	for _, other := range w.storeIPsOfKey(newF.Key) {
+		if other != ip && w.inNewestConf(other) {
+			w.fail("C02.second-ip-for-identity", "second-ip-for-identity",
+				"identity %q is given IP %s by %s while it still holds %s", newF.Key, ip, m.By.Name, other)
+			return
+		}
+	}
+	// (b) a deployment/pool pod with a reserving policy takes a reserved IP of its app, not a fresh one
+	if oldF == nil && id.App.Kind == "dp" && id.App.effPolicy() != "" {
+		for _, uid := range id.UIDs {
+			// only a pod that can still be bound is "scheduled again"; a fresh IP allocated for a pod that was deleted
+			// after its filter call is garbage that C03 judges, not a stickiness matter
+			if pp := w.podByUID[uid]; pp == nil || w.gone[uid] || pp.finished() {
+				continue
+			}
+			if fw := w.M.filterWin[uid]; fw != nil && fw.closed && fw.hadReserve {
+				w.fail("C02.fresh-instead-of-reserved", "fresh-instead-of-reserved",
+					"pod %q got fresh IP %s (by %s) although its app held an unowned reserved IP under %q throughout its last filter call (steps %d..)",
+					newF.Key, ip, m.By.Name, id.App.poolPrefix(), fw.start)
+				return
+			}
+		}
+	}
+}
+
+// openFilterWindow is called when a scheduling attempt (Filter) starts for a pod.
+func (w *World) openFilterWindow(p *PodInfo) {
+	if p.App == nil {
+		return
+	}
+	w.M.filterWin[p.UID] = &filterWindow{app: p.App, hadReserve: w.unownedUnderPrefix(p.App.poolPrefix()) > 0, start: w.S.Steps}
+}
+
+// trackFilterWindows is called on every FloatingIP mutation.
+func (w *World) trackFilterWindows() {
+	for _, uid := range sortedKeys(w.M.filterWin) {
+		fw := w.M.filterWin[uid]
+		if !fw.closed && fw.hadReserve && w.unownedUnderPrefix(fw.app.poolPrefix()) == 0 {
+			fw.hadReserve = false
+		}
+	}
+}
+
+// ---- C07: pool size ---------------------------------------------------------------------------------------
+
+func poolOfKey(key string) string {
+	if !strings.HasPrefix(key, "pool__") {
+		return ""
+	}
+	rest := key[len("pool__"):]
+	if i := strings.Index(rest, "_"); i >= 0 {
+		return rest[:i]
+	}
+	return ""
+}
+
+func (w *World) oracleC07(m *simkube.Mutation, ip string, oldF, newF *FipInfo) {
+	if !w.armed("C07") || newF == nil {
+		return
+	}
+	pool := poolOfKey(newF.Key)
+	if pool == "" || (oldF != nil && poolOfKey(oldF.Key) == pool) {
+		return // the population of the pool did not grow
+	}
+	start := 0
+	if tm, ok := m.By.Data.(*taskMeta); ok && tm != nil {
+		start = tm.start
+	}
+	max, unsized := w.maxPoolSizeSince(pool, start)
+	if o := w.K.ViewGet("pools", "kube-system", pool); o != nil {
+		var p poolJSON
+		_ = json.Unmarshal(o.JSON, &p)
+		if p.Size > max {
+			max = p.Size
+		}
+	} else {
+		unsized = true
+	}
+	if unsized {
+		return
+	}
+	if n := w.countUnderPrefix("pool__" + pool + "_"); n > max {
+		// circumstances that make up the finding signature: was some member of the pool allocated by an operation
+		// that started while the pool had no size (the Pool object was created while pods were between filter and bind)?
+		// signature of the finding: did some member of the pool get its IP from an allocation made at bind time
+		// (Bind allocates without the pool lock and without looking at the size)?
+		key := "pool-overgrown"
+		for _, x := range sortedKeys(w.M.allocs) {
+			if al := w.M.allocs[x]; poolOfKey(al.Key) == pool && al.BindTime {
+				key = "pool-overgrown:bind-time-allocation"
+			}
+		}
+		w.fail("C07.pool-overgrown", key, "pool %q now holds %d IPs (added %s under %q by %s), largest size in force since step %d is %d",
+			pool, n, ip, newF.Key, m.By.Name, start, max)
+	}
+}
+
+// ---- C09: reserved / de-configured IPs, lossless reload ---------------------------------------------------
+
+func (w *World) oracleC09Store(m *simkube.Mutation, ip string, oldF, newF *FipInfo) {
+	if !w.armed("C09") {
+		return
+	}
+	// a reload deletes only objects that are absent from the configuration version it read
+	if newF == nil && (m.By.Tag == "reload" || m.By.Tag == "periodic-reload") {
+		if tm, ok := m.By.Data.(*taskMeta); ok && tm != nil && tm.confRead >= 0 {
+			if _, inConf := w.confVers[tm.confRead][ip]; inConf {
+				w.fail("C09.reload-dropped-configured-ip", "reload-dropped-configured-ip",
+					"reload %s read configuration version %d, which contains %s, and deleted its FloatingIP (key %q)", m.By.Name, tm.confRead, ip, oldF.Key)
+			}
+		}
+	}
+}
 
 // ---- quiescent checks -----------------------------------------------------------------------------------
 
@@ -180,6 +410,9 @@ func (w *World) quiescentChecks(tag string, afterResync bool) {
 		}
 	}
 	w.S.Note("quiescent %s: %d/%d allocated, %d pods", tag, alloc, len(mem), len(w.pods))
+	if afterResync && w.armed("C03") {
+		w.leakCheck()
+	}
 	w.states = append(w.states, fmt.Sprintf("a%d/%d-p%d-f%d", alloc, len(mem), len(w.pods), len(w.K.List("floatingips", ""))))
 }
 
@@ -190,4 +423,27 @@ func sortedKeys[V any](m map[string]V) []string {
 	}
 	sort.Strings(ks)
 	return ks
+}
+
+// leakCheck (C03): once pending pod events have been handled and one resync pass has run, no IP stays assigned
+// to a pod that no longer exists (or has finished) unless its policy reserves it.
+func (w *World) leakCheck() {
+	for _, o := range w.K.List("floatingips", "") {
+		f := decodeFip(o)
+		if !isPodKey(f.Key) || !w.inNewestConf(f.IP) {
+			continue
+		}
+		id := w.M.idents[f.Key]
+		if id == nil {
+			continue
+		}
+		if w.livePodWithKey(f.Key) != nil {
+			continue
+		}
+		if ok, why := w.reservedByPolicy(id); !ok {
+			w.fail("C03.leak", "leak:"+id.App.Kind+"/"+id.App.effPolicy(),
+				"after event handling and one resync pass, FloatingIP %s is still assigned to %q whose pod is gone or finished: %s", f.IP, f.Key, why)
+			return
+		}
+	}
 }
